@@ -149,6 +149,10 @@ class DeclStream(Stream):
                 nc = len(e["comps"])
                 if nc >= 3 and rng.random() < 0.3:
                     e["mon"] = sorted(rng.sample(range(nc), rng.randint(1, nc - 2)))
+                elif nc >= 2 and e["style"] == "with" and rng.random() < 0.45:
+                    # ... also when the monitors are declared before the links are made
+                    e["mon"] = sorted(rng.sample(range(nc), rng.randint(1, nc - 1)))
+                    e["mon_early"] = True
                 if e["expo"] and rng.random() < 0.3:
                     # one port carries TWO external names (declared before or after the others): both must be there
                     c, k, _ = rng.choice(e["expo"])
